@@ -298,6 +298,13 @@ pub fn run(path: &str, out: &mut dyn Write) {
                     }
                 }
             }
+            Some("tokchain") => {
+                if t.len() >= 5 {
+                    if let (Ok(len), Ok(w), Ok(c)) = (t[2].parse::<usize>(), t[3].parse::<i64>(), t[4].parse::<i64>()) {
+                        writeln!(out, "{input} IMPL {}", crate::chain_obs(len.min(100_000), w, c)).unwrap();
+                    }
+                }
+            }
             Some("tok16") => {
                 if t.len() >= 4 {
                     if let (Ok(rows), Ok(cheap)) = (t[2].parse::<usize>(), t[3].parse::<usize>()) {
